@@ -79,6 +79,8 @@ extern int mpt_data_convert_float64(const double *from, MPT_TYPE(type) type, voi
 	}
 	switch (type) {
 		case 'f':
+			/* finite value outside of target range */
+			if ((val > FLT_MAX && val <= DBL_MAX) || (val < -FLT_MAX && val >= -DBL_MAX)) return MPT_ERROR(BadValue);
 			if (dest) *((float *) dest) = val;
 			return sizeof(float);
 		case 'd':
@@ -124,9 +126,13 @@ extern int mpt_data_convert_exflt(const long double *from, MPT_TYPE(type) type, 
 	}
 	switch (type) {
 		case 'f':
+			/* finite value outside of target range */
+			if ((val > FLT_MAX && val <= LDBL_MAX) || (val < -FLT_MAX && val >= -LDBL_MAX)) return MPT_ERROR(BadValue);
 			if (dest) *((float *) dest) = val;
 			return sizeof(float);
 		case 'd':
+			/* finite value outside of target range */
+			if ((val > DBL_MAX && val <= LDBL_MAX) || (val < -DBL_MAX && val >= -LDBL_MAX)) return MPT_ERROR(BadValue);
 			if (dest) *((double *) dest) = val;
 			return sizeof(double);
 		case 'e':
